@@ -70,8 +70,45 @@ def sweep(ctx, rng, limit):
                     muts.append(("qualify-unimported", "schema:{test/small_example_schema}." + sv))
             for mname, nv in muts:
                 cases.append((name, p, sv, mname, nv, setp(base, p, nv)))
+    # ... the same path extension with the reference RESPELLED (id <-> name / alias), and a dangling or wrong-kind "ref"
+    # added beside the "value" of every literal operand (an operand object is either a reference or a literal)
+    coll_of = {"party": ("parties", "name"), "object_type": ("object_types", "name"), "object_promise": ("object_promises", "name"),
+               "action": ("actions", "name"), "checkpoint": ("checkpoints", "alias"), "thread_group": ("thread_groups", "name")}
+    extra = []
+    for name, base in ok:
+        for p, sv in strings(base):
+            m = REF.match(sv)
+            if not m or m.group(1):
+                continue
+            kind, rid, path = m.group(2), m.group(3), m.group(4)
+            coll, af = coll_of[kind]
+            ents = [e for e in (base.get(coll) or []) if isinstance(e, dict)]
+            if rid.startswith("{"):
+                e = next((x for x in ents if str(x.get(af)) == rid[1:-1]), None)
+                other = None if e is None or "id" not in e else "%s:%s" % (kind, e["id"])
+            else:
+                e = next((x for x in ents if str(x.get("id")) == rid), None)
+                other = None if e is None or af not in e else "%s:{%s}" % (kind, e[af])
+            if other is not None and not allows_path(p):
+                extra.append((name, p, sv, "extend-path-respelled", other + path + ".zzz_undeclared", setp(base, p, other + path + ".zzz_undeclared")))
+
+        def dicts(x, pp=()):
+            if isinstance(x, dict):
+                yield pp, x
+                for k, v in x.items():
+                    yield from dicts(v, pp + (k,))
+            elif isinstance(x, list):
+                for i, v in enumerate(x):
+                    yield from dicts(v, pp + (i,))
+        for pp, node in dicts(base):
+            if "value" in node and "ref" not in node and pp and pp[-1] in ("left", "right") and "compare" in pp:
+                for mname, nv in (("literal-with-missing-ref", "action:99999.object_promise.completed"), ("literal-with-wrong-kind-ref", "party:0"),
+                                  ("literal-with-unloaded-ref", "schema:{nonexistent/not_a_schema}.action:0.object_promise")):
+                    extra.append((name, pp + ("ref",), json.dumps(node), mname, nv, setp(base, pp + ("ref",), nv)))
+    cases += extra
     if len(cases) > limit:
-        cases = rng.sample(cases, limit)
+        keep = rng.sample(extra, min(len(extra), limit // 4))
+        cases = rng.sample([c for c in cases if c not in extra], limit - len(keep)) + keep
     res = pool.validate_many([c[5] for c in cases])
     pool.close()
     return cases, res, len(ok)
